@@ -92,8 +92,10 @@ class Session:
         for f in sorted(os.listdir(srcdir)):
             if f.endswith('.rs'):
                 try:
-                    st, _ = extract(os.path.join(srcdir, f))
+                    st, en = extract(os.path.join(srcdir, f))
                     self.local_structs.update({k: [n for n, _ in v] for k, v in st.items()})
+                    for k, v in en.items():
+                        self.schema['enums'].setdefault(k, v)       # the crate's own enums (MatrixVectorTypes, CreateModuleError)
                 except Exception:
                     pass
         self.conv = Conv(self.schema)
